@@ -205,9 +205,12 @@ def domainName : Domain → String
   | .contributionAndProof => "DOMAIN_CONTRIBUTION_AND_PROOF"
   | .syncCommitteeSelectionProof => "DOMAIN_SYNC_COMMITTEE_SELECTION_PROOF"
 
-/-- where the object's own epoch comes from (what the correspondence harness re-derives by hand). -/
+/-- where the object's own epoch comes from (what the correspondence harness re-derives by hand):
+the field / method chain read from the receiver, with the method's single-assignment locals replaced
+by their defining expressions (`data, err := a.Data(); return data.Target.Epoch` reads
+`Data().Target.Epoch`; the names of locals do not occur). -/
 def epochSource : SigType → String
-  | .proposal => "slot:Slot()" | .attestation => "field:Target.Epoch" | .exit => "field:Message.Epoch"
+  | .proposal => "slot:Slot()" | .attestation => "field:Data().Target.Epoch" | .exit => "field:Message.Epoch"
   | .registration => "zero" | .randao => "field:SignedEpoch.Epoch" | .bcSelection => "slot:Slot"
   | .aggProof => "slot:Message.Aggregate.Data.Slot" | .vAggProof => "slot:Slot()"
   | .syncMessage => "slot:Slot" | .contribution => "slot:Message.Contribution.Slot"
